@@ -22,6 +22,9 @@ Mat0(w) == [l \in 1..2 |-> [p \in 1..w |-> IF p = 2 THEN 0 ELSE Mat(w)[l][p]]]
 PExp(w) == [l \in 1..2 |-> [p \in 1..w |-> (l + p) % 3]]
 BExp == <<1, 3>>
 LogOdds(w) == [l \in 1..2 |-> [p \in 1..w |-> BExp[l] - PExp(w)[l][p]]]
+\* a motif given as counts per letter and position (PWM.from_counts): count + 1 of letter l at position p is 2^PExp, and the counts of
+\* the other letters bring every column total (with the pseudo counts) to 2^4; the score of a letter is log((count + 1) / total)
+CountLog(w) == [l \in 1..2 |-> [p \in 1..w |-> PExp(w)[l][p] - 4]]
 
 \* --- design invariants (row locality and window counts), checked on every state
 RowLocal == \A k \in 1..W : \A j \in DOMAIN rows :
@@ -57,6 +60,7 @@ Emit == PrintT(ToJson([rows |-> rows,
                        scores0 |-> [k \in 1..W |-> Scores(rows, Mat0(k), k)],
                        pexp |-> [k \in 1..W |-> PExp(k)], bexp |-> BExp,
                        scoresLO |-> [k \in 1..W |-> Scores(rows, LogOdds(k), k)],
+                       scoresFC |-> [k \in 1..W |-> Scores(rows, CountLog(k), k)],
                        minim |-> [k \in 1..W |-> [w \in 1..W |-> IF w >= k THEN Minimizers(rows, k, w) ELSE <<>>]],
                        index |-> [k \in 1..W |-> Index(rows, k)],
                        rowcounts |-> [k \in 1..W |-> RowCounts(rows, k)],
